@@ -1523,3 +1523,110 @@ Lemma first_retval_reader_refuted :
   (* what the next header read would take for the record word does not carry the record magic *)
   (of_le (takeN 8 (dropN 8 (le_bytes 8 42 ++ next_rec))) / 8) mod 8 <> RECORD_MAGIC.
 Proof. vm_compute. split; [reflexivity|discriminate]. Qed.
+
+(* ------------------------------------------------------------------ the script readers: a second decoder of the same bytes *)
+(* script-python.c / script-luajit.c step over every argument exactly like get_argspec_string (after the fixes for the
+   octal and the char format): per spec ... *)
+Theorem script_same_step : forall syms s data, snd (script_one s data) = snd (show_one syms s data).
+Proof.
+  intros syms s data. unfold script_one, show_one.
+  destruct (s_fmt s); try reflexivity.
+  all: repeat match goal with |- context [if ?b then _ else _] => destruct b end; reflexivity.
+Qed.
+
+(* ... and therefore over the whole payload: both decoders look at the same suffix of the data for every spec *)
+Fixpoint positions (adv : spec -> list N -> N) (is_ret : bool) (specs : list spec) (data : list N) : list (list N) :=
+  match specs with
+  | [] => []
+  | s :: r =>
+      if negb (Bool.eqb is_ret (s_idx s =? 0)) then positions adv is_ret r data
+      else data :: positions adv is_ret r (dropN (adv s data) data)
+  end.
+
+Theorem script_same_positions : forall syms is_ret specs data,
+  positions (fun s d => snd (script_one s d)) is_ret specs data =
+  positions (fun s d => snd (show_one syms s d)) is_ret specs data.
+Proof.
+  intros syms is_ret specs. induction specs as [|s r IH]; intro data; [reflexivity|].
+  cbn [positions]. destruct (negb (Bool.eqb is_ret (s_idx s =? 0))); [apply IH|].
+  rewrite script_same_step with (syms := syms). f_equal. apply IH.
+Qed.
+
+Lemma script_loop_positions : forall is_ret specs data,
+  length (script_loop is_ret specs data) = length (positions (fun s d => snd (script_one s d)) is_ret specs data).
+Proof.
+  intros is_ret specs. induction specs as [|s r IH]; intro data; [reflexivity|].
+  cbn [script_loop positions]. destruct (negb (Bool.eqb is_ret (s_idx s =? 0))); [apply IH|].
+  destruct (script_one s data) as [v adv] eqn:E. cbn [length snd]. f_equal. apply IH.
+Qed.
+
+Lemma signed_mod : forall bits raw, 0 < bits -> raw < 2 ^ bits ->
+  (signed bits raw mod Z.of_N (2 ^ bits) = Z.of_N raw)%Z.
+Proof.
+  intros bits raw Hb Hr. unfold signed.
+  assert (Hp : 0 < 2 ^ bits) by (apply N.neq_0_lt_0; apply N.pow_nonzero; lia).
+  destruct (raw <? 2 ^ (bits - 1)) eqn:E.
+  - apply Z.mod_small. lia.
+  - replace (Z.of_N raw - Z.of_N (2 ^ bits))%Z with (Z.of_N raw + (-1) * Z.of_N (2 ^ bits))%Z by lia.
+    rewrite Z.mod_add by lia. apply Z.mod_small. lia.
+Qed.
+
+Definition script_int_fmt (f : fmt) : Prop :=
+  f = FAuto \/ f = FSint \/ f = FUint \/ f = FHex \/ f = FOct \/ f = FPtr \/ f = FEnum.
+
+(* C09 scripts, integers: from the bytes stored for an integer-class spec a Python script receives an int congruent to
+   the word that was passed modulo 2^(8*size) (sizes 1, 2, 4 sign-extended, 8 unsigned) *)
+Theorem script_int_py : forall s w later,
+  script_int_fmt (s_fmt s) -> s_size s = 1 \/ s_size s = 2 \/ s_size s = 4 \/ s_size s = 8 ->
+  ok_sitem Py s (AInt w) (conv Py (fst (script_one s (takeN (ALIGN (s_size s) 4) (le_bytes 8 w) ++ later)))) = true.
+Proof.
+  intros s w later Hf Hs.
+  destruct s as [idx f size ty u rs nm]. cbn [s_fmt s_size] in *.
+  assert (Hone : fst (script_one {| s_idx := idx; s_fmt := f; s_size := size; s_type := ty; s_u := u; s_regs := rs; s_name := nm |}
+                         (takeN (ALIGN size 4) (le_bytes 8 w) ++ later)) = VInt size (w mod 2 ^ (8 * size))).
+  { unfold script_one. cbn [s_fmt s_size]. rewrite (read_back_int size w later Hs).
+    assert (Hsz : (size =? 1) || (size =? 2) || (size =? 4) || (size =? 8) = true)
+      by (destruct Hs as [-> | [-> | [-> | ->]]]; reflexivity).
+    destruct Hf as [-> | [-> | [-> | [-> | [-> | [-> | ->]]]]]]; cbn [fst]; rewrite Hsz; reflexivity. }
+  rewrite Hone. cbn [conv].
+  set (v := w mod 2 ^ (8 * size)).
+  assert (Hv : v < 2 ^ (8 * size)) by (apply N.mod_lt; apply N.pow_nonzero; lia).
+  assert (Hok : forall z, (z mod Z.of_N (2 ^ (8 * size)) = Z.of_N v)%Z ->
+                ok_sitem Py {| s_idx := idx; s_fmt := f; s_size := size; s_type := ty; s_u := u; s_regs := rs; s_name := nm |}
+                         (AInt w) (OInt z) = true).
+  { intros z Hz. unfold ok_sitem. cbn [s_fmt s_size]. fold v.
+    destruct Hf as [-> | [-> | [-> | [-> | [-> | [-> | ->]]]]]]; rewrite Hz; apply Z.eqb_refl. }
+  apply Hok.
+  destruct (size =? 8) eqn:E8.
+  - apply Z.mod_small. lia.
+  - apply signed_mod; [lia|exact Hv].
+Qed.
+
+(* C09 scripts, strings: from the bytes of a stored string both readers hand over exactly these bytes (Lua), or these
+   bytes if they are valid UTF-8 and "<invalid value>" otherwise (Python) *)
+Theorem script_str : forall l s fill body tl ahead later,
+  s_fmt s = FStr -> nz body -> lenN body < 65536 -> body <> [255; 255; 255; 255] ->
+  conv l (fst (script_one s (fit (ALIGN (lenN body + 2) 4) fill (over (le_bytes 2 (lenN body) ++ body ++ tl) ahead) ++ later)))
+  = match l with Py => if utf8_valid body then OStr body else OInvalid | Lua => OStr body end.
+Proof.
+  intros l s fill body tl ahead later Hf Hnz Hlen Hff.
+  destruct (string_chunk fill body tl ahead) as (rest & ->).
+  unfold script_one. rewrite Hf. rewrite <- !app_assoc.
+  assert (H2 : takeN 2 (le_bytes 2 (lenN body) ++ body ++ rest ++ later) = le_bytes 2 (lenN body))
+    by (apply takeN_app_exact; reflexivity).
+  rewrite H2, of_le_le_bytes. change (256 ^ N.of_nat 2) with 65536. rewrite N.mod_small by exact Hlen.
+  assert (H3 : dropN 2 (le_bytes 2 (lenN body) ++ body ++ rest ++ later) = body ++ rest ++ later)
+    by (apply dropN_app_exact; reflexivity).
+  rewrite H3. rewrite takeN_app_exact by reflexivity.
+  assert (Hne : ((lenN body =? 4) && list_eqb body [255; 255; 255; 255]) = false).
+  { destruct (lenN body =? 4) eqn:E4; [|reflexivity]. cbn [andb].
+    destruct body as [|a [|b [|c [|d [|e r]]]]];
+      try (exfalso; unfold lenN in E4; simpl length in E4; lia).
+    cbn [list_eqb].
+    destruct (a =? 255) eqn:Ea; [|reflexivity].
+    destruct (b =? 255) eqn:Eb; [|reflexivity].
+    destruct (c =? 255) eqn:Ec; [|reflexivity].
+    destruct (d =? 255) eqn:Ed; [|reflexivity].
+    exfalso. apply Hff. f_equal; [lia|]. f_equal; [lia|]. f_equal; [lia|]. f_equal; lia. }
+  rewrite Hne. cbn [fst conv]. rewrite cstr_nz by exact Hnz. reflexivity.
+Qed.
